@@ -181,11 +181,14 @@ Definition seq_ok (p : pipeline) (dag : bool) (rs : list request) (obs : sx) : b
           let exp_all := map (fun r => match req_expected p r with Some l => l | None => [] end) accepted in
           let exp_now := map (fun r => match req_expected p r with Some l => l | None => [] end)
                              (filter (fun r => snd r) accepted) in
+          (* a request that is rejected only after its nodes were built (surplus keyword) may leave cached nodes
+             behind that a later request legitimately reuses: its calls count as possible, not as required *)
+          let exp_may := map (fun r => match req_expected p r with Some l => l | None => [] end) rs in
           zip3_forall (req_status_ok p) rs sts vals
           && forallb (fun c => existsb (mem_str c) exp_now) l0          (* nothing before an evaluate() *)
-          && forallb (fun c => existsb (mem_str c) exp_all) l1
+          && forallb (fun c => existsb (mem_str c) exp_may) l1
           && forallb (fun e => subset_str e l1) exp_all
-          && forallb (fun c => count_str c l1 <=? length (filter (mem_str c) exp_all)) l1
+          && forallb (fun c => count_str c l1 <=? length (filter (mem_str c) exp_may)) l1
           && (if dag then
                 match g with
                 | SL [SL labs; SL es] =>
